@@ -150,6 +150,12 @@ CHECKS['C26'] = (
     'The bookkeeping invariants (no duplicate proxy, proxy stored under its own key and point, no empty cycle bucket, cached task list = true contents, task_pool table = pool with status/flows/held) are evaluated after every transition of natural runs, runs with retries and failures, and runs with hold/trigger-new-flow/remove/set commands at every boundary plus stop and restart.',
     A_NOTE)
 
+CHECKS['C20'] = (
+    'schedmc', 'fault_enumeration',
+    'exhaustive crash-point enumeration (every database commit inside every explored main-loop iteration, and every boundary) on the real Scheduler, then restart from the on-disk image; explicit-state search with deduplication', '6/C20',
+    'For every explored transition (state, event) of small workflows and every commit position k=1..4 inside the iteration handling the event (plus the boundary, k=0) the scheduler is killed right after that commit through an sqlite connection seam, the byte image of the private/public DB of that instant is restored, and a new Scheduler restarts from it while jobs carry on (a jobs-submit in flight either launches or is lost). Oracles: no job launched twice under one submit number, no resubmission without failure, and in every terminal state the set of instances run equals the reference closure.',
+    'Process death only (SQLite journal guarantees assumed); one crash per execution; two known findings recorded (double launch of a submit in flight; child lost after the early flush in TaskPool.remove).')
+
 NOT_BUILT_REASON = (
     'check not built yet in this session (designed in DESIGN.md section 6); '
     'no verdict is claimed')
